@@ -98,6 +98,10 @@ pub enum Op {
     SetSession { doc: String },
     /// async + class C: listen outside a procedure; frames then (pending => future dropped)
     Rxc { frames: Vec<Frame> },
+    /// nb front-end: ONE raw event, whatever the state machine's state (free-form event sequences, `vh nbwalk`):
+    /// ev = send | join | txdone | timeout | timeout_fault | rx | noise0 | noise1 | noise2;
+    /// tx = what the radio answers to a transmit request (send / join): done | txing | err | idle
+    NbEv { ev: String, frame: Option<Frame>, tx: String, ts: u32 },
     /// trace markers for forked continuations (the device is re-created and the prefix re-executed silently)
     Checkpoint,
     Restore { id: usize },
@@ -352,6 +356,65 @@ impl<'a> Runner<'a> {
                 let args = json!({"kind": "send", "appkey": [], "deveui": [], "appeui": [],
                                   "port": port, "data": bytes(data), "confirmed": *confirmed as u8});
                 self.procedure(dev, op, args, None, Some((*port, data.clone(), *confirmed)), draws, plan)
+            }
+            Op::NbEv { ev, frame, tx, ts } => {
+                use nb_device::{radio, Event};
+                if !matches!(dev, Dev::Nb(_)) {
+                    return true;
+                }
+                {
+                    let mut e = self.env.borrow_mut();
+                    e.scripted_draws = Default::default();
+                    e.tx_out = match tx.as_str() {
+                        "txing" => TxOut::Txing,
+                        "err" => TxOut::Err,
+                        "idle" => TxOut::Idle,
+                        _ => TxOut::Done(*ts),
+                    };
+                    e.nb_rxreq_err = ev == "timeout_fault";
+                    e.nb_cancel_err = ev == "timeout_fault";
+                }
+                let ts = *ts;
+                let r = match ev.as_str() {
+                    "send" => {
+                        let args = json!({"kind": "send", "appkey": [], "deveui": [], "appeui": [], "port": 1, "data": [7], "confirmed": 0});
+                        self.nb_step(dev, "send", json!({"args": args}), Some(op), |d| d.send(&[7], 1, false))
+                    }
+                    "join" => {
+                        let (appkey, deveui, appeui) = ([7u8; 16], [1u8, 2, 3, 4, 5, 6, 7, 8], [8u8, 7, 6, 5, 4, 3, 2, 1]);
+                        let jm = JoinMode::OTAA { deveui: DevEui::from(deveui), appeui: AppEui::from(appeui), appkey: AppKey::from(appkey) };
+                        let args = json!({"kind": "join", "appkey": bytes(&appkey), "deveui": bytes(&deveui), "appeui": bytes(&appeui),
+                                          "port": 0, "data": [], "confirmed": 0});
+                        self.nb_step(dev, "join", json!({"args": args}), Some(op), |d| d.join(jm))
+                    }
+                    "txdone" => self.nb_step(dev, "txdone", json!({"args": {"ts": ts}}), Some(op), |d| {
+                        d.handle_event(Event::RadioEvent(radio::Event::Phy(NbPhyEvent::TxDone(ts))))
+                    }),
+                    "timeout" | "timeout_fault" => {
+                        self.nb_step(dev, "timeout", json!({"args": {"w": 0}}), Some(op), |d| d.handle_event(Event::TimeoutFired))
+                    }
+                    "rx" => {
+                        let f = frame.clone().unwrap_or(Frame { bytes: vec![], snr: 0, intent: "empty".into() });
+                        let fj = json!({"bytes": bytes(&f.bytes), "snr": f.snr, "intent": f.intent});
+                        let (fb, snr) = (f.bytes.clone(), f.snr);
+                        self.nb_step(dev, "rx", json!({"frame": fj, "args": {"w": 0}}), Some(op), move |d| {
+                            d.handle_event(Event::RadioEvent(radio::Event::Phy(NbPhyEvent::Rx(fb, snr))))
+                        })
+                    }
+                    "noise0" => self.nb_step(dev, "noise", json!({"args": {"n": 0}}), Some(op), |d| {
+                        d.handle_event(Event::RadioEvent(radio::Event::Phy(NbPhyEvent::Noise)))
+                    }),
+                    "noise2" => self.nb_step(dev, "noise", json!({"args": {"n": 2}}), Some(op), |d| {
+                        d.handle_event(Event::RadioEvent(radio::Event::Phy(NbPhyEvent::Fail)))
+                    }),
+                    other => panic!("unknown nb event {other}"),
+                };
+                {
+                    let mut e = self.env.borrow_mut();
+                    e.nb_rxreq_err = false;
+                    e.nb_cancel_err = false;
+                }
+                r.is_some()
             }
             Op::Rxc { frames } => {
                 let Dev::As(d) = dev else { return true };
@@ -1640,6 +1703,200 @@ pub fn vh_macmc(a: &Args) {
             };
             let _ = run_history(out.shard(h), &ops, a.seed ^ h as u64, Some(&mut g));
             h += 1;
+        }
+    }
+    println!("events={} histories={h}", out.finish());
+}
+
+/// `vh nbwalk depth=<d> regions=EU868,US915`: the nb state machine under FREE-FORM event sequences.  From a fresh
+/// ABP session: every sequence of `depth` events that starts with a request (send answered Done / Txing by the
+/// radio, or join) followed by any events of the alphabet {send, send_txing, join, txdone, timeout, timeout_fault
+/// (the radio refuses the RX request / the cancel), rx_valid (authentic fresh confirmed downlink with a
+/// DevStatusReq), rx_junk (same frame, MIC broken), rx_oversize (100-byte data frame), noise0 (stray radio event),
+/// noise2 (radio failure event)}, plus every pair of events from Idle.  MacTrace.tla defines the response and the
+/// state after every (state, event) pair; nothing here knows what is expected.
+pub fn vh_nbwalk(a: &Args) {
+    let depth = a.get_usize("depth", if a.thorough { 5 } else { 4 });
+    let regions: Vec<String> = a.get("regions").unwrap_or(if a.thorough { "EU868,US915" } else { "EU868" }).split(',').map(|s| s.to_string()).collect();
+    let alpha = ["send", "send_txing", "join", "txdone", "timeout", "timeout_fault", "rx_valid", "rx_junk", "rx_oversize", "noise0", "noise2"];
+    let mut seqs: Vec<Vec<usize>> = vec![];
+    for x in 0..alpha.len() {
+        for y in 0..alpha.len() {
+            seqs.push(vec![x, y]);
+        }
+    }
+    let mut cur: Vec<Vec<usize>> = vec![vec![0], vec![1], vec![2]];
+    for _ in 1..depth {
+        let mut next = vec![];
+        for s in &cur {
+            for x in 0..alpha.len() {
+                let mut t = s.clone();
+                t.push(x);
+                next.push(t);
+            }
+        }
+        cur = next;
+    }
+    seqs.extend(cur);
+    let mut out = crate::cli::Shards::create(&a.out, "mac", a.shards);
+    let key = [1u8; 16];
+    let addr = [1u8, 2, 3, 4];
+    let mut h = 0usize;
+    for region in &regions {
+        for sq in &seqs {
+            let ops = vec![
+                Op::Reset {
+                    region: region.clone(), front: "nb".into(), classc: false, board: 0, bias_sb: 0, bias_retries: 1,
+                    lead: 10, buffer: 10, offset: 0, duration: 500, session: None,
+                },
+                Op::JoinAbp { nwk: key, app: key, addr },
+            ];
+            let mut idx = 0usize;
+            let mut g = |view: &View| -> Option<Op> {
+                let name = alpha[*sq.get(idx)?];
+                idx += 1;
+                let ts = 100 * idx as u32;
+                let mk = |ev: &str, tx: &str, frame: Option<Frame>| Some(Op::NbEv { ev: ev.into(), frame, tx: tx.into(), ts });
+                match name {
+                    "send" => mk("send", "done", None),
+                    "send_txing" => mk("send", "txing", None),
+                    "join" => mk("join", "done", None),
+                    "rx_valid" | "rx_junk" => {
+                        let (nwk, app, ad) = view.keys.unwrap_or((key, key, addr));
+                        let net = Net { nwk, app, addr: ad, sent: vec![] };
+                        let n = view.fcnt_down.map(|x| x + 1).unwrap_or(0);
+                        let mut bytes = net.data(n, true, false, &[0x06], 5, &[1, 2], false, false);
+                        if name == "rx_junk" {
+                            let l = bytes.len();
+                            bytes[l - 1] ^= 0x40;
+                        }
+                        mk("rx", "done", Some(Frame { bytes, snr: 3, intent: format!("walk:{name}") }))
+                    }
+                    "rx_oversize" => {
+                        let (nwk, app, ad) = view.keys.unwrap_or((key, key, addr));
+                        let net = Net { nwk, app, addr: ad, sent: vec![] };
+                        let n = view.fcnt_down.map(|x| x + 1).unwrap_or(0);
+                        let bytes = net.data(n, false, false, &[], 7, &[0x55; 87], false, false);
+                        mk("rx", "done", Some(Frame { bytes, snr: 3, intent: "walk:oversize".into() }))
+                    }
+                    other => mk(other, "done", None),
+                }
+            };
+            let _ = run_history(out.shard(h), &ops, a.seed ^ h as u64, Some(&mut g));
+            h += 1;
+        }
+    }
+    println!("events={} histories={h}", out.finish());
+}
+
+/// `vh awalk`: the async front-end (and Class C) under an enumerated alphabet of procedures.  A procedure is
+/// (send | join) x RX1 outcome x RX2 outcome x radio fault position, with outcomes {nothing, authentic fresh frame
+/// (send: confirmed downlink with a DevStatusReq; join: JoinAccept), the same frame with a broken MIC, a 100-byte
+/// data frame}.  Histories: every procedure of the alphabet from a fresh ABP session followed by every procedure of
+/// a second, smaller alphabet (quick: 4, thorough: 48), with and without Class C (Class C adds an authentic frame
+/// between the windows of every second history).
+pub fn vh_awalk(a: &Args) {
+    let regions: Vec<String> = a.get("regions").unwrap_or(if a.thorough { "EU868,US915" } else { "EU868" }).split(',').map(|s| s.to_string()).collect();
+    let outcomes = ["none", "valid", "junk", "oversize"];
+    #[derive(Clone)]
+    struct P { join: bool, rx1: usize, rx2: usize, fault: i32 }
+    let mut first: Vec<P> = vec![];
+    for join in [false, true] {
+        for rx1 in 0..4 {
+            for rx2 in 0..4 {
+                for fault in -1..10 {
+                    first.push(P { join, rx1, rx2, fault });
+                }
+            }
+        }
+    }
+    let mut second: Vec<P> = vec![];
+    if a.thorough {
+        for rx1 in 0..4 {
+            for rx2 in 0..4 {
+                for fault in [-1, 3, 6] {
+                    second.push(P { join: false, rx1, rx2, fault });
+                }
+            }
+        }
+    } else {
+        for rx1 in 0..4 {
+            second.push(P { join: false, rx1, rx2: 0, fault: -1 });
+        }
+    }
+    let mut out = crate::cli::Shards::create(&a.out, "mac", a.shards);
+    let key = [1u8; 16];
+    let appkey = [7u8; 16];
+    let addr = [1u8, 2, 3, 4];
+    let mut h = 0usize;
+    for region in &regions {
+        for classc in [false, true] {
+            for p1 in &first {
+                for p2 in &second {
+                    let ops = vec![
+                        Op::Reset {
+                            region: region.clone(), front: "async".into(), classc, board: 0, bias_sb: 0, bias_retries: 1,
+                            lead: 10, buffer: 10, offset: 0, duration: 500, session: None,
+                        },
+                        Op::JoinAbp { nwk: key, app: key, addr },
+                    ];
+                    let procs = [p1.clone(), p2.clone()];
+                    let mut idx = 0usize;
+                    let mut jn = 0u32;
+                    let hh = h;
+                    let mut g = |view: &View| -> Option<Op> {
+                        let p = procs.get(idx)?;
+                        idx += 1;
+                        let mut plan = Proc { tx: "done".into(), ts: 100, fault: p.fault, ..Default::default() };
+                        let (nwk, app, ad) = view.keys.unwrap_or((key, key, addr));
+                        let net = Net { nwk, app, addr: ad, sent: vec![] };
+                        let mut last = view.fcnt_down;
+                        let frame = |o: usize, last: &mut Option<u32>, jn: &mut u32| -> Option<Frame> {
+                            let n = last.map(|x| x + 1).unwrap_or(0);
+                            match outcomes[o] {
+                                "none" => None,
+                                "oversize" => Some(Frame { bytes: net.data(n, false, false, &[], 7, &[0x55; 87], false, false), snr: 3, intent: "walk:oversize".into() }),
+                                name => {
+                                    let mut bytes = if p.join {
+                                        *jn += 1;
+                                        Net::join_accept(&appkey, [*jn as u8, 0, 0x20], [1, 2, 3], addr, 0x00, 1, -1, &[0; 15])
+                                    } else {
+                                        net.data(n, true, false, &[0x06], 5, &[1, 2], false, false)
+                                    };
+                                    if name == "junk" {
+                                        let l = bytes.len();
+                                        bytes[l - 1] ^= 0x40;
+                                    } else if !p.join {
+                                        *last = Some(n);
+                                    }
+                                    Some(Frame { bytes, snr: 3, intent: format!("walk:{name}") })
+                                }
+                            }
+                        };
+                        if classc && hh % 2 == 1 && !p.join {
+                            // an authentic Class C frame between the windows
+                            let n = last.map(|x| x + 1).unwrap_or(0);
+                            plan.c2.push(Frame { bytes: net.data(n, false, false, &[], 9, &[3], false, false), snr: 2, intent: "walk:classc".into() });
+                            last = Some(n);
+                        }
+                        let mut l1 = view.fcnt_down;
+                        if let Some(f) = frame(p.rx1, &mut l1, &mut jn) {
+                            plan.rx1.push(f);
+                        }
+                        let mut l2 = if plan.c2.is_empty() { view.fcnt_down } else { last };
+                        if let Some(f) = frame(p.rx2, &mut l2, &mut jn) {
+                            plan.rx2.push(f);
+                        }
+                        if p.join {
+                            Some(Op::JoinOtaa { appkey, deveui: [1, 2, 3, 4, 5, 6, 7, 8], appeui: [8, 7, 6, 5, 4, 3, 2, 1], draws: vec![], plan })
+                        } else {
+                            Some(Op::Send { port: 1, data: vec![7], confirmed: idx % 2 == 0, draws: vec![], plan })
+                        }
+                    };
+                    let _ = run_history(out.shard(h), &ops, a.seed ^ h as u64, Some(&mut g));
+                    h += 1;
+                }
+            }
         }
     }
     println!("events={} histories={h}", out.finish());
